@@ -431,7 +431,11 @@ func runParent(id, tier string) int {
 								os.MkdirAll(filepath.Dir(keep), 0755)
 								copyTail(logf, keep, 1<<20)
 								crashLogs[started] = keep
-								r.ViolateD("crash", keep, "child process died while running this case (%v); log kept", werr)
+								sig := "crash"
+								if b, err := os.ReadFile(keep); err == nil && strings.Contains(string(b), "WARNING: DATA RACE") {
+									sig = "data-race"
+								}
+								r.ViolateD(sig, keep, "child process died while running this case (%v); log kept at %s", werr, keep)
 							}
 							results[started] = r
 						}
